@@ -143,6 +143,8 @@ class Spec(object):
                 if c["name"] in seen or c.get("entry", ["max_time"])[0] != "max_time":
                     continue
                 seen.add(c["name"])
+                # normal termination needs no complete tree here (the owning property explores it completely)
+                c = dict(c, D=min(c.get("D", INF), 2 if tier == "quick" else 4), family="F-imported")
                 out.append(c)
         singles = [c for c in universal.family("quick") if len(c["features"]) <= (1 if tier == "quick" else 2)]
         import copy
